@@ -43,9 +43,15 @@ def run(chk):
     for _ in range(160 if thorough else 40):
         case = case_for_c04(rng)
         script = A.random_script(rng, case)
+        k = rng.random()
+        if k < 0.12:      # finite values of huge magnitude (beyond 1e100), both signs
+            case['objective'] = {'kind': 'scaled', 'of': case['objective'], 'factor': rng.choice([1e105, -1e110, 1e150])}
+        elif k < 0.22:    # values wider than a double: python ints around 10^18 (no refinement: SciPy narrows to double itself)
+            case['objective'] = {'kind': 'bigint', 'of': case['objective'], 'base': rng.choice([10 ** 18, -10 ** 18]), 'mult': rng.choice([3, 20, 1000])}
+        bigint = case['objective'].get('kind') == 'bigint'
         if rng.random() < 0.25:    # a functional-style Problem whose Calculate returns a NEW FunctionValue
             case['new_holder'] = True
-        if rng.random() < 0.3:     # local refinement, possibly repeated
+        if rng.random() < 0.3 and not bigint:     # local refinement, possibly repeated
             case['refine'] = rng.random() < 0.5
             script = script + [('refine', rng.choice([3, 10, 40]))] + ([('refine', rng.choice([2, 4]))] if rng.random() < 0.5 else [])
             if rng.random() < 0.5:     # the search continues after a refinement
